@@ -203,4 +203,151 @@ theorem TS_run_started (tp : TParams) (ls : List TLbl) (s : HS) :
 
 end HL
 
+/-! ### a decidable form of the preconditions (for concrete histories) -/
+
+def accConnsOkb (n : NetSt) (name : String) : Bool :=
+  match n.tcp? name with
+  | none => true
+  | some s =>
+    match s.acc with
+    | none => true
+    | some a => a.conns.all (fun c => decide (c < n.chans.length))
+
+theorem accConnsOkb_sound {n : NetSt} {name : String} (h : accConnsOkb n name = true) : accConnsOk n name := by
+  intro s a hs ha c hc
+  unfold accConnsOkb at h
+  rw [hs] at h; dsimp only at h; rw [ha] at h; dsimp only at h
+  rw [List.all_eq_true] at h
+  simpa using h c hc
+
+def TS.okb (s : HS) : TLbl → Bool
+  | .newSock name _ _ => (s.n.tcp? name).isNone
+  | .connect _ name _ _ =>
+    (match s.n.tcp? name with | some s0 => !s0.isOpen || s0.connectH.isNone | none => false)
+  | .read name _ => (s.n.tcp? name).isSome
+  | .waitRead name _ => (s.n.tcp? name).isSome
+  | .write name _ => (s.n.tcp? name).isSome
+  | .accept _ name op =>
+    (match s.n.tcp? name with | some s0 => s0.acc.isSome | none => false)
+      && (match op with | .fresh _ nn => (s.n.tcp? nn).isNone | .into _ _ _ => true)
+      && accConnsOkb s.n name
+  | .accClose _ name => accConnsOkb s.n name
+  | .incoming _ name p =>
+    accConnsOkb s.n name && (match p.chan with | some c => decide (c < s.n.chans.length) | none => true)
+  | .refusedFired h => s.parked.contains h
+  | _ => true
+
+theorem TS.okb_sound {s : HS} {l : TLbl} (h : TS.okb s l = true) : TS.ok s l := by
+  cases l <;> simp only [TS.okb, TS.ok] at h ⊢ <;> (try trivial) <;> (try exact h)
+  case newSock name node isAcc => simpa using h
+  case connect now name target hd =>
+    cases hs : s.n.tcp? name with
+    | none => rw [hs] at h; simp at h
+    | some s0 =>
+      rw [hs] at h
+      refine ⟨s0, rfl, fun ho => ?_⟩
+      simpa [ho] using h
+  case accept now name op =>
+    simp only [Bool.and_eq_true] at h
+    obtain ⟨⟨h1, h2⟩, h3⟩ := h
+    refine ⟨?_, ?_, accConnsOkb_sound h3⟩
+    · cases hs : s.n.tcp? name with
+      | none => rw [hs] at h1; simp at h1
+      | some s0 => rw [hs] at h1; exact ⟨s0, rfl, h1⟩
+    · intro hd nn e; subst e; simpa using h2
+  case accClose now name => exact accConnsOkb_sound h
+  case incoming now name p =>
+    simp only [Bool.and_eq_true] at h
+    refine ⟨accConnsOkb_sound h.1, fun c hc => ?_⟩
+    have := h.2; rw [hc] at this; simpa using this
+  case refusedFired hd => simpa using h
+
+def TS.okRunb (tp : TParams) : HS → List TLbl → Bool
+  | _, [] => true
+  | s, l :: rest => TS.okb s l && TS.okRunb tp (TS.step tp s l) rest
+
+theorem TS.okRunb_sound (tp : TParams) (ls : List TLbl) (s : HS) (h : TS.okRunb tp s ls = true) :
+    TS.okRun tp s ls := by
+  induction ls generalizing s with
+  | nil => trivial
+  | cons l rest ih =>
+    simp only [TS.okRunb, Bool.and_eq_true] at h
+    exact ⟨TS.okb_sound h.1, ih _ h.2⟩
+
+def TWfb (n : NetSt) : Bool :=
+  decide (n.tcps.map (·.1)).Nodup && n.tcps.all (fun e => e.2.recvH.isNone || e.2.waitRecvH.isNone)
+
+theorem TWfb_sound {n : NetSt} (h : TWfb n = true) : TWf n := by
+  simp only [TWfb, Bool.and_eq_true, decide_eq_true_eq, List.all_eq_true] at h
+  refine ⟨h.1, fun name s hs => ?_⟩
+  have := h.2 (name, s) (HL.tcp_lookup_mem hs)
+  simp only [Bool.or_eq_true, Option.isNone_iff_eq_none] at this
+  exact this
+
+/-- **`acceptor::close()` / destructor**: the posted completions are exactly the abort of the
+    outstanding accept followed by the aborts of the (normally empty) socket slots; afterwards
+    every slot of the acceptor is empty, it is closed and detached, its queue is empty. -/
+theorem accClose_posts (n : NetSt) (now : Int) (name : String) (s : TcpSock) (a : AccState)
+    (hs : n.tcp? name = some s) (ha : s.acc = some a) :
+    postsOf (n.accClose now name).2 = postsOf (tcpAbortAcceptEffs s) ++ postsOf (tcpCancelEffs s)
+    ∧ ∃ s', (n.accClose now name).1.tcp? name = some s'
+        ∧ s'.acceptOp = none ∧ s'.recvH = none ∧ s'.waitRecvH = none ∧ s'.sendH = none ∧ s'.connectH = none
+        ∧ s'.isOpen = false ∧ s'.fwd = none ∧ s'.acc.map (·.conns) = some [] := by
+  open HL in
+  unfold NetSt.accClose
+  rw [hs]; dsimp only; rw [ha]; dsimp only
+  generalize hs1 : ({ s with acc := some { a with queueLimit := -1 } } : TcpSock) = s1
+  have e1 : s1.recvH = s.recvH := by subst hs1; rfl
+  have e2 : s1.waitRecvH = s.waitRecvH := by subst hs1; rfl
+  have e3 : s1.sendH = s.sendH := by subst hs1; rfl
+  have e4 : s1.connectH = s.connectH := by subst hs1; rfl
+  have e5 : s1.acceptOp = s.acceptOp := by subst hs1; simp [TcpSock.acceptOp, ha]
+  have e6 : s1.acc.isSome := by subst hs1; rfl
+  obtain ⟨g0, g1, g2, g3, g4⟩ := tcp_abortAccept_slots s1
+  obtain ⟨_, _, _, _, _, f6, _, _⟩ := tcp_abortAccept_frame s1
+  -- close of the acceptor as a socket
+  obtain ⟨hce, s2, hs2, c1, c2, c3, c4, c5, c6, c7, _, _, _⟩ :=
+    tcpClose_some (n.setTcp name s1.abortAccept.1) now name s1.abortAccept.1 (setTcp_tcp_same _ _ _)
+  have hop2 : s2.acceptOp = none := by unfold TcpSock.acceptOp at g0 ⊢; rw [c5]; exact g0
+  -- check_accept_queue on the closed acceptor
+  have hcq : ∃ rs s3, ((n.setTcp name s1.abortAccept.1).tcpClose now name).1.accCheckQueue now name
+        = ((((n.setTcp name s1.abortAccept.1).tcpClose now name).1).setTcp name s3, rs)
+      ∧ silent rs ∧ s3.acceptOp = none ∧ s3.recvH = none ∧ s3.waitRecvH = none ∧ s3.sendH = none
+      ∧ s3.connectH = none ∧ s3.isOpen = false ∧ s3.fwd = none ∧ s3.acc.map (·.conns) = some [] := by
+    rw [accCheckQueue_eq, hs2]; dsimp only
+    cases ha2 : s2.acc with
+    | none => rw [← c5, ha2] at f6; rw [← f6] at e6; cases e6
+    | some a2 =>
+      dsimp only
+      have hop2' : a2.acceptOp = none := by unfold TcpSock.acceptOp at hop2; rw [ha2] at hop2; simpa using hop2
+      have hr : accResetClosed ((n.setTcp name s1.abortAccept.1).tcpClose now name).1 name s2 a2
+          = ((((n.setTcp name s1.abortAccept.1).tcpClose now name).1).setTcp name
+              { s2 with acc := some { a2 with conns := [] } },
+             a2.conns.filterMap (fun c => ((((n.setTcp name s1.abortAccept.1).tcpClose now name).1).chan? c).map (fun ch =>
+               NEff.forward { id := 0, ty := .err, ec := .reset, len := 0, ovh := 28, hops := ch.hops0,
+                              src := s2.bound.toString })) ++ []) := by
+        unfold accResetClosed
+        simp only [c6, Bool.not_false, if_true]
+        unfold TcpSock.abortAccept
+        simp [hop2']
+      rw [hr]; dsimp only
+      have ht : accTryAccept ((((n.setTcp name s1.abortAccept.1).tcpClose now name).1).setTcp name
+              { s2 with acc := some { a2 with conns := [] } }) now name
+          = ((((n.setTcp name s1.abortAccept.1).tcpClose now name).1).setTcp name
+              { s2 with acc := some { a2 with conns := [] } }, []) := by
+        unfold accTryAccept
+        rw [setTcp_tcp_same]; dsimp only; rw [hop2']
+      rw [ht]
+      refine ⟨_, _, rfl, ?_, ?_, c1, c2, c3, c4, c6, c7, rfl⟩
+      · simp only [List.append_nil]; exact silent_rsts _ _ _
+      · unfold TcpSock.acceptOp; simp [hop2']
+  obtain ⟨rs, s3, hq, hsil, k0, k1, k2, k3, k4, k5, k6, k7⟩ := hcq
+  rw [hq]
+  refine ⟨?_, s3, setTcp_tcp_same _ _ _, k0, k1, k2, k3, k4, k5, k6, k7⟩
+  dsimp only
+  rw [postsOf_append, postsOf_append, postsOf_silent hsil, List.append_nil, hce, postsOf_append,
+    postsOf_silent (silent_tcpCloseEof _ _ _ _), List.nil_append, tcp_abortAccept_effs,
+    tcpCancelEffs_congr (s := s) (by rw [g1, e1]) (by rw [g2, e2]) (by rw [g3, e3]) (by rw [g4, e4])]
+  unfold tcpAbortAcceptEffs; rw [e5]
+
 end SimVerif
